@@ -322,12 +322,18 @@ def _r1_python_by_evaluation(ctx):
                 for n in ast.walk(gm))
     ctx.decide(ok_gm, "C15-R1", gm, HB, "_get_or_minus1", "a missing atom (IndexError) becomes -1", "", "_get_or_minus1 no longer maps a missing atom to the sentinel -1")
 
+    from ..tensym import Raised as _TRaised
+
     def gom(ev, call):
         lam = ev.ex(call.args[0])
         try:
             return ev.apply_lambda(lam, [])
         except IndexError:
             return -1
+        except _TRaised as e_:
+            if (e_.exc or "").startswith("IndexError"):
+                return -1
+            raise
 
     def idx(rk, nm):
         return next((a_.index for a_ in residues[rk].atoms if a_.name == nm), -1)
